@@ -215,7 +215,7 @@ fn reset(rec: &mut Rec, p: &LairRun, seed: u64, run: u64, nops: usize, sched: Op
         base.as_object_mut().unwrap().insert("sched".into(), sv);
     }
     let mut rest = json!({
-        "cfg": {"period": PERIOD.to_string(), "white": [DENOMS[0], DENOMS[1]]},
+        "cfg": {"period": PERIOD.to_string(), "white": [DENOMS[0], DENOMS[1]], "growth": Decimal::permille(1).atomics().to_string()},
         "obs": p.obs()});
     base.as_object_mut().unwrap().append(rest.as_object_mut().unwrap());
     rec.emit(base);
